@@ -34,7 +34,10 @@ def export_name_agreement(ctx):
     for s in stores:
         key = src(s.slice)
         guards = [src(a.test) for a in ancestors(s) if isinstance(a, ast.If)]
-        ok = key.endswith('.export') and key in guards
+        eacfg = CFG(ea.node, m, ea.module)
+        sst = next((a for a in ancestors(s) if isinstance(a, ast.stmt)), None)
+        # the store lies only where a test established that <key> is true (an enclosing if, or a `continue` guard before it)
+        ok = key.endswith('.export') and sst is not None and set(eacfg.ids(sst)) <= sides_with_fact(eacfg, lambda a, tv, key=key: tv and src(a) == key)
         ctx.check(ok, f'{ea.qualname}:accessible listed under its wire name iff exported', s,
                   f'keyed by `{key}` under guard `{key}`',
                   f'the description lists accessibles under `{key}` with guards {guards}: it no longer agrees with the '
@@ -54,7 +57,9 @@ def export_name_agreement(ctx):
     am = m.method(SN, 'add_module', inherited=False)
     ctx.analysed(am)
     apps = [c for c in calls_in(am.node) if call_attr(c) == 'append' and 'self.export' in src(c.func)]
-    ok = bool(apps) and all(any(isinstance(a, ast.If) and src(a.test).endswith('.export') for a in ancestors(c)) for c in apps)
+    amcfg = CFG(am.node, m, am.module)
+    exported_side = sides_with_fact(amcfg, lambda a, tv: tv and src(a).endswith('.export'))
+    ok = bool(apps) and all(set(amcfg.node_of(c)) <= exported_side for c in apps)
     ctx.check(ok, f'{am.qualname}:export list guarded', am.node, 'appended only `if module.export`',
               'modules are added to the export list regardless of their export property', am)
 
@@ -196,10 +201,16 @@ def reply_shape(ctx):
                 elif isinstance(x, ast.Attribute) and x.attr == 'constant':
                     good.append(True)   # slot holds the serialised constant (Parameter.finish)
                 elif isinstance(x, ast.Call) and call_attr(x) == 'do' and name == '_execute_command':
-                    # only reaches the return when cobj.result is falsy: do() returned None
-                    good.append(any(isinstance(a, ast.If) and 'result' in src(a.test) and
-                                    any(isinstance(c, ast.Call) and call_attr(c) == 'export_value' for st in a.body for c in calls_in(st))
-                                    for a in [s for s in body_walk(fi.node) if isinstance(s, ast.If)]))
+                    # the raw result of do() may only reach a return where <cmd>.result is falsy (do() returned None): every
+                    # path from that definition on which the name is not re-bound leaves a test of `.result` on its false side
+                    nm = first.id if isinstance(first, ast.Name) else None
+                    dstmt = next((a for a in ancestors(x) if isinstance(a, ast.stmt)), None)
+                    if nm is None or dstmt is None:
+                        good.append(False)
+                        continue
+                    redefs = [i for st in body_walk(fi.node) if isinstance(st, (ast.Assign, ast.AugAssign, ast.AnnAssign)) and st is not dstmt
+                              and nm in rd._target_names(st.targets[0] if isinstance(st, ast.Assign) else st.target) for i in cfg.ids(st)]
+                    good.append(paths_need_fact(cfg, cfg.ids(dstmt), cfg.ids(r), lambda a, tv: not tv and src(a).endswith('.result'), avoid=redefs))
                 else:
                     good.append(False)
             ctx.check(bool(good) and all(good), f'{fi.qualname}:value in transport representation', r,
@@ -231,8 +242,10 @@ def flags(ctx):
     ctx.check(ok, f'{fin.qualname}:constant forces readonly', fin.node, 'readonly = True when constant is set',
               'a constant parameter is not forced to readonly: the description would promise a refusal that depends on the flag', fin)
     sp = m.method(D, '_setParameterValue', inherited=False)
-    ok = any(isinstance(n, ast.If) and src(n.test).endswith('.readonly') for n in body_walk(sp.node)) and \
-        any(isinstance(n, ast.If) and '.constant is not None' in src(n.test) for n in body_walk(sp.node))
+    tests = [x for n in body_walk(sp.node) if isinstance(n, (ast.If, ast.IfExp, ast.While)) for x in ast.walk(n.test)]
+    ok = any(isinstance(x, ast.Attribute) and x.attr == 'readonly' for x in tests) and \
+        any(isinstance(x, ast.Compare) and isinstance(x.left, ast.Attribute) and x.left.attr == 'constant' and
+            isinstance(x.ops[0], (ast.Is, ast.IsNot)) for x in tests)      # polarity and order: C04.R1 (shared as C06.R3c)
     ctx.check(ok, f'{sp.qualname}:tests readonly and constant', sp.node, 'dispatcher tests .readonly and .constant',
               'the dispatcher does not test the described flags', sp)
     for fi in [m.method(D, '_setParameterValue', inherited=False), m.method(D, '_getParameterValue', inherited=False), fin]:
@@ -409,13 +422,13 @@ def writable_by_description_means_writable(ctx):
         return
     aa = m.method(roles.MODULE, '_add_accessible', inherited=False)
     ctx.analysed(aa)
-    guards = []
-    for n in body_walk(aa.node):
-        if isinstance(n, ast.If) and 'readonly' in src(n.test) and any(isinstance(c, ast.Call) and dotted(c.func) == 'hasattr' and "'write_'" in src(c)
-                                                                        for c in ast.walk(n.test)):
-            if any(call_attr(c) == 'append' and 'errors' in src(c.func) for st in n.body for c in calls_in(st)) or \
-                    any(isinstance(x, ast.Raise) for st in n.body for x in walk_local(st)):
-                guards.append(n)
+    # an error report (errors.append / raise) that lies exactly where the tests established `not <p>.readonly` and
+    # `not hasattr(self, 'write_' + name)` - one combined test or nested ones
+    acfg = CFG(aa.node, m, aa.module)
+    writable = sides_with_fact(acfg, lambda a, tv: not tv and isinstance(a, ast.Attribute) and a.attr == 'readonly')
+    no_method = sides_with_fact(acfg, lambda a, tv: not tv and isinstance(a, ast.Call) and dotted(a.func) == 'hasattr' and "'write_'" in src(a))
+    guards = [c for c in calls_in(aa.node) if call_attr(c) == 'append' and 'errors' in src(c.func) and set(acfg.node_of(c)) <= (writable & no_method)]
+    guards += [x for x in body_walk(aa.node) if isinstance(x, ast.Raise) and set(acfg.ids(x)) and set(acfg.ids(x)) <= (writable & no_method)]
     ctx.check(bool(guards), f'{hook.qualname}:a configuration can not describe a parameter as writable that has no write path', gen[0] if gen else hook.node,
               '_add_accessible reports a configuration error for readonly=False without write method',
               f'the write wrapper is generated only `if {src(gen[0].test) if gen else "?"}` (class level) while `readonly` can be set to False per '
